@@ -10,3 +10,25 @@ type LoadFormer interface {
 	// or panic if that is not possible.
 	LoadForm() Object
 }
+
+// LoadFormOf returns a form that evaluates to the object when the object is
+// an element of some other object such as a list or a hash-table. A nil and a
+// keyword evaluate to themselves, any other symbol must be quoted or it
+// would be taken as a variable, and anything else has to be a LoadFormer.
+func LoadFormOf(obj Object) (form Object) {
+	switch to := obj.(type) {
+	case nil:
+		// already nil
+	case Symbol:
+		if 0 < len(to) && to[0] == ':' {
+			form = to
+		} else {
+			form = List{quoteSymbol, to}
+		}
+	case LoadFormer:
+		form = to.LoadForm()
+	default:
+		PrintNotReadablePanic(NewScope(), 0, to, "Can not make a load form for %s.", to)
+	}
+	return
+}
